@@ -77,6 +77,12 @@ fn main() {
             let lines = t.finish();
             println!("{}", serde_json::json!({"runs": runs, "events": lines}));
         }
+        "chmask" => {
+            let mut t = Trace::create(job["out"].as_str().unwrap());
+            let runs = vharness::metah::run_chmask(&job, &mut t);
+            let lines = t.finish();
+            println!("{}", serde_json::json!({"runs": runs, "events": lines}));
+        }
         "blocklist" => {
             let mut t = Trace::create(job["out"].as_str().unwrap());
             let runs = vharness::metah::run_blocklist(&job, &mut t);
